@@ -32,6 +32,25 @@ KANI_RANGES = {
 import c15_extract
 import c12_extract
 import c14_extract
+import c09fk_extract
+
+_FK_LENS = ["len_%d" % n for n in range(8)]
+KANI_FK_ARGS = {
+    "name": "c09_kani_fk_args",
+    "cwd": lambda repo, root: __import__("os").path.join(root, "kani-crates", "c09fk"),
+    "prepare": c09fk_extract.prepare,
+    "module": "proofs",
+    "harness_files": ["kani-crates/c09fk/src/lib.rs"],
+    "features": [],
+    "flags": [],
+    "quick": ["%s::%s" % (m, h) for m in _FK_LENS[:6] for h in ("precondition_satisfiable", "no_panic")],
+    "thorough": ["%s::%s" % (m, h) for m in _FK_LENS for h in ("precondition_satisfiable", "no_panic")],
+    "timeout": 1200,
+    "procs": 8,
+    "target_tag": "c09fk",
+    "bounded": "texts of at most 5 (quick) / 7 (thorough) bytes of valid UTF-8 over the bytes of `{ } a space é €`",
+    "source_hint": "leptos_i18n_parser/src/parse_locales/parsed_value.rs",
+}
 
 _C14_LENS = ["len_%d" % n for n in range(8)]
 KANI_URL_LOCALE = {
@@ -174,7 +193,7 @@ PROPS = {
     "C09": {
         "level": "proof",
         "verus": ["c04_find_value", "c09_either_of", "c03_defaulted", "c11_json_writer", "c17_js_string"],
-        "kani": [KANI_RANGES],
+        "kani": [KANI_RANGES, KANI_FK_ARGS],
     },
     "C11": {
         "level": "proof",
